@@ -138,6 +138,10 @@ func goSliceEnumerate(obj *object, all bool, each func(string) bool) {
 }
 
 func goSliceDefineOwnProperty(obj *object, name string, descriptor property, throw bool) bool {
+	if _, isData := descriptor.value.(Value); !isData && (name == propertyLength || stringToArrayIndex(name) >= 0) {
+		// An element of a Go slice (and its length) cannot become an accessor property: reject (8.12.9)
+		return obj.runtime.typeErrorResult(throw)
+	}
 	if name == propertyLength {
 		obj.value.(*goSliceObject).setLength(descriptor.value.(Value))
 		return true
